@@ -1,8 +1,40 @@
 (* C03 — every snapshot element carries the style values TTML style resolution prescribes.
-   M = Model/Isd.v (style_phase, compute_prop), S = Spec/StyleSpec.v (computed_spec). *)
-From TT Require Import Model.Doc Gen.StyleTables Model.Isd Spec.IsdSpec Spec.StyleSpec Proofs.C03.Values.
+   M = Model/Isd.v (style_phase: animation, specified, direction, inheritance, initial values, ordered computation),
+   S = Spec/StyleSpec.v (computed_spec: by-property cascade and length resolution).
+   `styles_along d t chain` is the style map M builds for the element at the head of `chain` (its ancestors follow,
+   the region last); C03_snapshot_styles ties it to the snapshot tree.
+   Proved for EVERY document, time, chain: the 25 properties whose computed value is the cascaded value, and
+   tts:fontSize (the reference of every other relative length, incl. the ruby halving rule).
+   Not proved (evaluated on every styled element of the model's and the code's snapshots by harness/c03.py):
+   textDecoration merging, direction, and the 8 other length-bearing properties (extent, origin/position, padding,
+   lineHeight, linePadding, rubyReserve, textOutline, textShadow) — and textEmphasis, which is REFUTED for the
+   faithful model (recorded finding textemphasis-auto-parent-writing-mode). *)
+From TT Require Import Model.Doc Gen.StyleTables Model.Isd Spec.IsdSpec Spec.StyleSpec.
+From TT Require Import Proofs.C03.Values Proofs.C03.Cascade Proofs.C03.Chain Proofs.C03.FontSize.
 
 Theorem C03_length_resolution : forall l pct em c px,
   compute_length l pct em c px = match rel l pct em c px with Some r => Ok r | None => Err errCompute end.
 Proof. exact compute_length_rel. Qed.
-Print Assumptions C03_length_resolution.
+
+(* animation step > specified > inherited (inheritable properties, not on regions) > document initial > default *)
+Theorem C03_plain_value : forall d t p, plain_prop p = true -> In p all_props ->
+  forall chain st, chain_ok chain = true -> styles_along d t chain = Ok st -> sget st p = plain d t p chain.
+Proof. exact styles_along_plain. Qed.
+Theorem C03_plain_is_spec : forall d t chain p, plain_prop p = true -> computed_spec d t chain p = plain d t p chain.
+Proof. exact plain_is_spec. Qed.
+
+(* font size: % and em of the parent's computed size (one cell for a region), c and px of the cell/pixel height;
+   inherited otherwise, ruby text at half the parent's size *)
+Theorem C03_font_size : forall d t chain st, chain_ok chain = true -> styles_along d t chain = Ok st ->
+  exists l, sget st p_FontSize = Some (VLen l) /\ font_size d t chain = Some l.
+Proof. exact styles_along_fontsize. Qed.
+
+(* the style map of a snapshot element is that map restricted to the properties applicable to its kind *)
+Theorem C03_snapshot_styles : forall d t sel inh par pb pe a cs a' cs',
+  proc d t sel inh par pb pe (Elem a cs) = Ok (Some (Elem a' cs')) ->
+  exists st, style_phase d t a par (make_absolute (e_begin a) (e_end a) pb pe) = Ok st /\
+             e_styles a' = strip_inapplicable (e_kind a) st.
+Proof. exact proc_styles. Qed.
+
+Print Assumptions C03_length_resolution.  Print Assumptions C03_plain_value.  Print Assumptions C03_plain_is_spec.
+Print Assumptions C03_font_size.  Print Assumptions C03_snapshot_styles.
